@@ -77,6 +77,20 @@ def canon_u(u):
     return canon(mk_uuid(u))
 
 
+_D12E = None
+
+
+def d12e_repaired():
+    """does this tree carry the repair of D12e?  (an include declaration of a service with a
+    128-bit UUID is 4 bytes long: no UUID; before the repair: 6 bytes)"""
+    global _D12E
+    if _D12E is None:
+        from bumble.gatt import Service, IncludedServiceDeclaration
+        svc = Service(mk_uuid([128, (1 << 100) | 77]), [])
+        _D12E = len(IncludedServiceDeclaration(svc).value) == 4
+    return _D12E
+
+
 def value_bytes(vlen, salt):
     return bytes((i * 7 + salt * 13 + (i >> 8)) % 256 for i in range(vlen))
 
@@ -331,12 +345,14 @@ def gen_db_case(rng, quick):
         services.append({'uuid': u, 'primary': not rng.chance(1, 8), 'implicit': False, 'incl': incl,
                          'chars': gen_chars(rng, mtu, nch, salt)})
         salt += 11
-    # included services must have 16-bit UUIDs for the client to learn their UUID (finding D12e);
-    # the generator keeps to that, the corpus holds the 128-bit witness
-    for s in services:
-        for i in s['incl']:
-            if services[i]['uuid'][0] != 16:
-                services[i]['uuid'] = [16, rng.choice(SVC_POOL)]
+    # included services: two thirds of the databases keep them to 16-bit UUIDs (the UUID travels in
+    # the include declaration), the rest exercise the nested read of the service declaration
+    # (on a tree without the repair D12e those report the known finding)
+    if not rng.chance(1, 3):
+        for s in services:
+            for i in s['incl']:
+                if services[i]['uuid'][0] != 16:
+                    services[i]['uuid'] = [16, rng.choice(SVC_POOL)]
     return {'kind': 'db', 'server_mtu': server_mtu, 'client_mtu': client_mtu, 'services': services,
             'writes': gen_writes(rng, services, mtu)}
 
@@ -412,6 +428,9 @@ async def run_db_impl(case):
         before = len(cconn.sent)
         kind, val = await bounded(coro)
         counts[name] = len(cconn.sent) - before
+        if name.startswith('included'):      # nested reads of service declarations are counted apart
+            counts[name] = sum(1 for p in cconn.sent[before:] if p[0] == 0x08)
+            counts['nested_reads'] = counts.get('nested_reads', 0) + sum(1 for p in cconn.sent[before:] if p[0] == 0x0A)
         return kind, val
 
     if case['client_mtu'] is not None:
@@ -600,8 +619,8 @@ def db_model_expr(case):
         seen.append(cu)
         by_uuid.append(by(coq_uuid(s['uuid'])))
     by_uuid.append(by(f'(mkU 2 {0x18FF})'))
-    inc = [f'outcome_obs (discover_included {F} (fun _ s => srv_read_by_type {mtu} db UUID_INCLUDE s {s["end"]}) {s["h"]} {s["end"]})'
-           for s in prim]
+    inc = [f'outcome_obs (discover_included {F} (fun _ s => srv_read_by_type {mtu} db UUID_INCLUDE s {s["end"]}) '
+           f'(srv_read_uuid db) {s["h"]} {s["end"]})' for s in prim]
     chs = [f'outcome_obs (discover_characteristics {F} (fun _ s => srv_read_by_type {mtu} db UUID_CHARACTERISTIC s {s["end"]}) '
            f'{s["h"]} {s["end"]})' for s in prim]
     dss = [f'outcome_obs (discover_descriptors {F} (fun _ s => srv_find_information {mtu} db s {c["end"]}) {c["vh"]} {c["end"]})'
@@ -623,7 +642,7 @@ def db_model_expr(case):
                    f"(match store_get 7 s' with Some v => Z.of_nat (List.length v) | None => -1 end, "
                    f"match r with WOk => 0 | WErr c => c | WSilent => -2 end))")
     return (f'let FUEL := {MODEL_FUEL}%nat in let ss := {coq_specs(services)} in let db := build ss in '
-            f'(map attr_obs db, (specs_ok ss, db_wf db), '
+            f'(map attr_obs db, (andb (specs_ok ss) (andb (incl_idx_ok 0 ss) (includes_consistent db)), db_wf db), '
             f'outcome_obs (discover_services FUEL (fun _ s => srv_read_by_group {mtu} db UUID_PRIMARY s 65535)), '
             f'[{"; ".join(by_uuid)}], [{"; ".join(inc)}], [{"; ".join(chs)}], [{"; ".join(dss)}], '
             f'outcome_obs (discover_attributes FUEL (fun _ s => srv_find_information {mtu} db s 65535)), '
@@ -675,7 +694,11 @@ def compare_db(ctx, case, obs, m):
     check('discover_service[absent]', by_uuid[-1], obs['by_uuid_absent'][0], obs['by_uuid_absent'][1],
           lambda ents: [[h, e, 0] for h, e, d in ents], 'by_uuid_absent')
     if len(inc) == len(obs['included']):
+        prim_specs = [s for s in case['services'] if s['primary']]
         for k, mo in enumerate(inc):
+            if not d12e_repaired() and any(case['services'][i]['uuid'][0] != 16 for i in prim_specs[k]['incl']):
+                ctx.count('db.included.not_compared_without_D12e')
+                continue
             check(f'discover_included[{k}]', mo, obs['included'][k][0], obs['included'][k][1],
                   lambda ents: [[d[0], d[1], canon_of_pdu_form(d[2], d[3])] for h, e, d in ents], f'included{k}')
         j = 0
@@ -792,7 +815,13 @@ def gen_adv_case(rng):
         script.append(adv_pdu(rng, proc, rsp, ents, dirty))
     if rng.chance(1, 2):
         script.append(bytes([0x01, req, 0, 0, 0x0A]))
-    return {'kind': 'adv', 'proc': proc, 'range': [lo, hi], 'script': [p.hex() for p in script]}
+    case = {'kind': 'adv', 'proc': proc, 'range': [lo, hi], 'script': [p.hex() for p in script]}
+    if proc == 'included':
+        # how the peer answers the nested Read Requests for service declarations (always the same way)
+        case['read_rsp'] = rng.choice([bytes([0x0B]) + rng.bytes(16), bytes([0x0B]) + rng.bytes(16),
+                                       bytes([0x0B]) + rng.bytes(2), bytes([0x0B]) + rng.bytes(rng.choice([0, 3, 5, 22])),
+                                       bytes([0x01, 0x0A, 0, 0, rng.choice([0x01, 0x02, 0x0A])])]).hex()
+    return case
 
 
 def adv_pdu(rng, proc, rsp, ents, dirty=True):
@@ -854,6 +883,9 @@ def parse_adv_pdu(proc, pdu):
         for h, v in p.attributes:
             if len(v) < 4:
                 ents.append((h, h, True, []))
+            elif len(v) == 4:                      # no UUID: the client reads the service declaration
+                s, e = struct.unpack_from('<HH', v)
+                ents.append((h, h, False, [s, e]))
             else:
                 s, e = struct.unpack_from('<HH', v)
                 bad, d = u(v[4:])
@@ -891,6 +923,14 @@ async def run_adv_impl(case):
     holder = {}
 
     def on_request(pdu):
+        if pdu[0] == 0x0A and proc == 'included':          # nested read of a service declaration
+            state['reads'] = state.get('reads', 0) + 1
+            if state['reads'] > 40 * REQUEST_BUDGET:
+                state['over'] = True
+                return
+            rr = bytes.fromhex(case.get('read_rsp', '0b0018'))
+            loop.call_soon(lambda: holder['client'].on_gatt_pdu(att.ATT_PDU.from_bytes(rr)))
+            return
         starts.append(struct.unpack_from('<H', pdu, 1)[0])
         if len(starts) > REQUEST_BUDGET:
             state['over'] = True
@@ -988,7 +1028,12 @@ def adv_model_expr(case):
     elif proc == 'service':
         call = f'discover_service {MODEL_FUEL}%nat {sc}'
     elif proc == 'included':
-        call = f'discover_included {MODEL_FUEL}%nat {sc} {lo} {hi}'
+        rr = bytes.fromhex(case.get('read_rsp', '0b0018'))
+        if rr[0] == 0x01:
+            rd = f'(fun _ => UErr {rr[4]})'
+        else:
+            rd = f'(fun _ => UVal {len(rr) - 1} {int.from_bytes(rr[1:], "little")})'
+        call = f'discover_included {MODEL_FUEL}%nat {sc} {rd} {lo} {hi}'
     elif proc == 'chars':
         call = f'discover_characteristics {MODEL_FUEL}%nat {sc} {lo} {hi}'
     elif proc == 'descs':
@@ -1003,6 +1048,13 @@ def adv_model_expr(case):
 def compare_adv(ctx, case, res, m):
     kind, ents, n = mobs(m)
     proc = case['proc']
+    if proc == 'included' and not d12e_repaired():
+        # the model is the code after D12e.patch; without it a UUID-less declaration is not resolved
+        for p in case['script']:
+            r = parse_adv_pdu(proc, bytes.fromhex(p))
+            if r is not None and r[0] == 'list' and any(len(e[3]) == 2 for e in r[1]):
+                ctx.count('adv.included.not_compared_without_D12e')
+                return
     if kind == 'ok':
         if proc in ('services', 'service'):
             mv = [[h, e] for h, e, d in ents]
@@ -1148,6 +1200,8 @@ def gen_notify_case(rng):
             ops.append([kind, cl, ch, vlen, rng.below(200)])
     if rng.chance(1, 3):
         ops.append(['indicate_held', rng.below(ncl), rng.below(len(chars)), 5, 1])
+    if rng.chance(1, 4):
+        ops.append(['indicate_twice', rng.below(ncl), rng.below(len(chars)), 4, 2])
     return {'kind': 'notify', 'server_mtu': server_mtu, 'clients': clients, 'chars': chars, 'ops': ops}
 
 
@@ -1217,6 +1271,23 @@ async def run_notify_impl(case):
                 coro = srv.notify_subscriber(conn, attr, val, force=True)
             elif name == 'indicate_one_force':
                 coro = srv.indicate_subscriber(conn, attr, val, force=True)
+            elif name == 'indicate_twice':
+                # two indications to the same bearer at once: the second one must wait for the
+                # confirmation of the first (one outstanding indication per bearer)
+                w.hold_confirm[cl] = True
+                t1 = asyncio.ensure_future(srv.indicate_subscriber(conn, attr, val, force=True))
+                t2 = asyncio.ensure_future(srv.indicate_subscriber(conn, attr, val + b'\x01', force=True))
+                await idle(80)
+                rec['sent_before_confirm'] = [p.hex() for p in w.to_client[cl] if p[0] in (0x1B, 0x1D)]
+                rec['pending_before_confirm'] = [not t1.done(), not t2.done()]
+                w.release_confirmations(cl)
+                await idle(200)
+                rec['done_after_confirm'] = [t1.done() and not t1.cancelled() and t1.exception() is None,
+                                             t2.done() and not t2.cancelled() and t2.exception() is None]
+                for t in (t1, t2):
+                    if not t.done():
+                        t.cancel()
+                coro = None
             else:   # indicate_held: the confirmation is held back, the indication must stay pending
                 w.hold_confirm[cl] = True
                 task = asyncio.ensure_future(srv.indicate_subscriber(conn, attr, val, force=True))
@@ -1289,11 +1360,13 @@ def notify_oracle(case, obs):
                 sub = (cccd.get((i, ch), b'\0\0')[0] & bit) != 0
                 if name.endswith('_all'):
                     send = sub
-                elif name.endswith('force') or name == 'indicate_held':
+                elif name.endswith('force') or name in ('indicate_held', 'indicate_twice'):
                     send = i == cl
                 else:
                     send = i == cl and sub
                 exp.append([[opcode, h, val[:mtus[i] - 3].hex()]] if send else [])
+                if send and name == 'indicate_twice':
+                    exp[-1].append([opcode, h, (val + b'\x01')[:mtus[i] - 3].hex()])
             if rec['pdus'] != exp:
                 sig = 'notify:' + name
                 if indicate and any(p and p[0][0] == 0x1B for p in rec['pdus']):
@@ -1301,7 +1374,13 @@ def notify_oracle(case, obs):
                 bad.append((sig, f'{name}(bearer {cl}, characteristic {h}, {vlen} bytes), bearer MTUs {mtus}: '
                                  f'PDUs per bearer (opcode, handle, value) {summ(rec["pdus"])}, expected {summ(exp)}'))
                 continue
-            if name == 'indicate_held':
+            if name == 'indicate_twice':
+                if (len(rec['sent_before_confirm']) != 1 or rec['pending_before_confirm'] != [True, True]
+                        or rec['done_after_confirm'] != [True, True]):
+                    bad.append(('indicate:one-outstanding', f'two indications to bearer {cl} at once: {len(rec["sent_before_confirm"])} '
+                                                            f'on the wire before the first confirmation, pending {rec["pending_before_confirm"]}, '
+                                                            f'completed after the confirmations {rec["done_after_confirm"]}'))
+            elif name == 'indicate_held':
                 if not (rec['pending_before_confirm'] and rec['done_after_confirm']):
                     bad.append(('indicate:confirmation', f'indication to bearer {cl}: pending before the confirmation: '
                                                          f'{rec["pending_before_confirm"]}, done after it: {rec["done_after_confirm"]}'))
@@ -1312,7 +1391,7 @@ def notify_oracle(case, obs):
             for i in range(ncl):
                 want = []
                 if exp[i] and ('i' if indicate else 'n') in local.get((i, ch), ()):
-                    want = [[ch, exp[i][0][2]]]
+                    want = [[ch, x[2]] for x in exp[i]]
                 if rec['callbacks'][i] != want:
                     bad.append(('notify:callback', f'{name}: subscriber callbacks on client {i}: '
                                                    f'{summ(rec["callbacks"][i])}, expected {summ(want)}'))
@@ -1348,7 +1427,7 @@ def notify_model_exprs(case, obs):
         if name in ('subscribe', 'unsubscribe'):
             prev = rec['cccd']
             continue
-        if name == 'indicate_held':
+        if name in ('indicate_held', 'indicate_twice'):
             prev = rec['cccd']
             continue
         subs = {}
@@ -1443,6 +1522,16 @@ async def run_link_impl(case):
         for cp in (res if k2 == 'ok' else []):
             k3, val = await bounded(peer.read_value(cp), 200000)
             obs['reads'].append([cp.handle, k3, val.hex() if k3 == 'ok' else val])
+    # a write longer than ATT_MTU-3 (a single Write Request that L2CAP segments) takes effect
+    obs['long_write'] = None
+    wtarget = [ch for o in objs for ch in o.characteristics if ch.handle]
+    if wtarget:
+        mtu_now = conns[0].att_mtu
+        data = value_bytes(min(512, mtu_now + 10), 9)
+        kw, vw = await bounded(peer.gatt_client.write_value(wtarget[0].handle, data, with_response=True), 200000)
+        await idle(100)
+        kr, rb = await bounded(peer.gatt_client.read_value(wtarget[0].handle), 200000)
+        obs['long_write'] = [len(data), kw, vw, bytes(wtarget[0].value) == data, kr == 'ok' and rb == data]
     # EATT: two enhanced bearers; indicate on an enhanced bearer must be an indication
     obs['eatt'] = None
     target = None
@@ -1461,6 +1550,7 @@ async def run_link_impl(case):
                     await bounded(c.discover_characteristics([], sp), 200000)
             sbearers = list(devs[1].l2cap_channel_manager.le_coc_channels.get(conns[1].handle, {}).values())
             recs = []
+            spies = []
             for ci, c in enumerate(clients):
                 got_n, got_i = [], []
                 cps = [cp for sp in c.services for cp in sp.characteristics if cp.handle == target.handle]
@@ -1482,7 +1572,34 @@ async def run_link_impl(case):
                     k5, _ = await bounded(server.indicate_subscriber(sb[-1], target, b'\x07' * 5), 200000)
                     await idle(200)
                     recs.append([ci, k5, [x for x in seen if x in (0x1B, 0x1D)], [bytes(v).hex() for v in got_i]])
+                spies.append(seen)
             obs['eatt'] = recs
+            # fan-out: client 0 re-subscribes for notifications (CCCD 0x0001 on its bearer), client 1
+            # keeps 0x0002; notify_subscriber / indicate_subscriber on the CONNECTION must reach
+            # exactly the bearers subscribed for that kind, the un-enhanced bearer (no CCCD) nothing
+            if len(spies) == 2 and len(recs) == 2:
+                cps0 = [cp for sp in clients[0].services for cp in sp.characteristics if cp.handle == target.handle]
+                await bounded(clients[0].subscribe(cps0[0], None, prefer_notify=True), 200000)
+                await idle(200)
+                plain = []
+                orig_p = peer.gatt_client.on_gatt_pdu
+
+                def spy_p(pdu):
+                    plain.append(int(pdu.op_code))
+                    orig_p(pdu)
+                peer.gatt_client.on_gatt_pdu = spy_p
+                for sp_ in spies:
+                    sp_.clear()
+                kn, _ = await bounded(server.notify_subscriber(conns[1], target, b'\x09' * 4), 200000)
+                await idle(200)
+                fan_n = [[x for x in sp_ if x in (0x1B, 0x1D)] for sp_ in spies] + [[x for x in plain if x in (0x1B, 0x1D)]]
+                for sp_ in spies:
+                    sp_.clear()
+                plain.clear()
+                ki, _ = await bounded(server.indicate_subscriber(conns[1], target, b'\x0a' * 4), 200000)
+                await idle(200)
+                fan_i = [[x for x in sp_ if x in (0x1B, 0x1D)] for sp_ in spies] + [[x for x in plain if x in (0x1B, 0x1D)]]
+                obs['fanout'] = [kn, fan_n, ki, fan_i]
     for d in devs:
         try:
             await bounded(d.power_off(), 2000)
@@ -1516,6 +1633,15 @@ def link_oracle(case, obs):
             exp_reads.append([c['vh'] + base, 'ok', value_bytes(c['spec']['vlen'], c['spec']['salt']).hex()])
     if not bad and obs['reads'] != exp_reads:
         bad.append((f'link:read:mtu={mtu}', f'two devices: reads differ at ATT_MTU {mtu}'))
+    lw = obs.get('long_write')
+    if lw is not None and lw[1:] != ['ok', None, True, True]:
+        bad.append(('link:long-write', f'two devices: write_value of {lw[0]} bytes at ATT_MTU {mtu}: result {lw[1]} {lw[2]}, '
+                                       f'server holds the value: {lw[3]}, read back equal: {lw[4]}'))
+    fo = obs.get('fanout')
+    if fo is not None and fo != ['ok', [[0x1B], [], []], 'ok', [[], [0x1D], []]]:
+        bad.append(('link:fan-out', f'notify_subscriber / indicate_subscriber on a connection with two EATT bearers (CCCD 0x0001, '
+                                    f'0x0002, none): PDUs seen per client {fo}, expected notification on the first only, '
+                                    f'indication on the second only'))
     for rec in obs.get('eatt') or []:
         ci, k, ops, vals = rec
         if ops != [0x1D] or k != 'ok' or vals != ['0707070707']:
@@ -1642,15 +1768,15 @@ def run(ctx):
     rng = ctx.rng
     cases = load_corpus()
     ncorpus = len(cases)
-    for _ in range(ctx.n(40, 600)):
+    for _ in range(ctx.n(32, 600)):
         cases.append(gen_db_case(rng, ctx.quick()))
-    for _ in range(ctx.n(120, 2500)):
+    for _ in range(ctx.n(90, 2500)):
         cases.append(gen_read_case(rng))
-    for _ in range(ctx.n(400, 8000)):
+    for _ in range(ctx.n(320, 8000)):
         cases.append(gen_adv_case(rng))
-    for _ in range(ctx.n(100, 2000)):
+    for _ in range(ctx.n(80, 2000)):
         cases.append(gen_notify_case(rng))
-    for k in range(ctx.n(40, 600)):
+    for k in range(ctx.n(24, 600)):
         cases.append(gen_advread_case(rng, endless=(k % 20 == 0), quick=ctx.quick()))
     for k in range(ctx.n(6, 40)):
         c = gen_db_case(rng, True)
@@ -1769,18 +1895,25 @@ def run(ctx):
 
 
 def search(ctx):
-    """Directed search after a broken proof / correspondence: the grid of value lengths x MTUs
-    and the built-in corpus, on the implementation only."""
-    for case in builtin_corpus():
+    """Directed search after a broken proof obligation (a theorem, the shape obligation of the
+    translator) or a broken correspondence: the corpus, the value length x MTU grid with boundary
+    MTUs, and a larger generated campaign, on the implementation only (property oracle)."""
+    for case in load_corpus():
         judge(ctx, case, run_impl(case))
-    for mtu in (23, 24, 50, 185, 517):
+    for mtu in (23, 24, 26, 30, 50, 185, 517):
         for k in range(0, 6):
             for d in (-1, 0, 1):
                 vlen = max(0, min(512, k * (mtu - 1) + d))
                 case = {'kind': 'read', 'mtu': mtu, 'vlen': vlen, 'salt': 5}
                 judge(ctx, case, run_impl(case))
-                if ctx.violations:
-                    return
+    rng = ctx.rng.fork('search')
+    for k in range(ctx.n(400, 3000)):
+        case = [gen_db_case, gen_db_case, None, None, gen_notify_case, None][k % 6]
+        case = (gen_db_case(rng, True) if k % 6 < 2 else gen_adv_case(rng) if k % 6 in (2, 3)
+                else gen_notify_case(rng) if k % 6 == 4 else gen_advread_case(rng))
+        judge(ctx, case, run_impl(case))
+        if [v for v in ctx.violations if not v['signature'].startswith('D12e:')]:
+            return
 
 
 def replay(ctx, obj):
